@@ -28,6 +28,8 @@ struct TestSpec {
 
 #[derive(Clone, Debug)]
 struct Script {
+    /// the first child module is itself called `pkg` (library route only)
+    pkg_child: bool,
     n_modules: usize,
     tests: Vec<TestSpec>,
     /// functions: (module, name, value)
@@ -58,7 +60,8 @@ fn decode(ctl: &[u8]) -> Script {
         let has_fn = fns.iter().any(|(m, n, _)| *m == module && *n == name);
         tests.push(TestSpec { module, name, tag: i as i32 + 1, exits, final_accept: c.chance(170), calls_same_named_fn: has_fn && c.chance(128) });
     }
-    Script { n_modules, tests, fns }
+    let pkg_child = c.chance(70);
+    Script { pkg_child, n_modules, tests, fns }
 }
 
 fn cond_text(v: bool, style: u8) -> &'static str {
@@ -125,7 +128,11 @@ fn files(s: &Script) -> Vec<(String, String)> {
 }
 
 fn files_for(s: &Script, cli: bool) -> Vec<(String, String)> {
-    (0..s.n_modules).map(|m| (if m == 0 { "pkg".to_string() } else { format!("m{m}") }, render(s, m, cli))).collect()
+    (0..s.n_modules).map(|m| (mname(s, m, cli), render(s, m, cli))).collect()
+}
+
+fn mname(s: &Script, m: usize, cli: bool) -> String {
+    if m == 0 || (m == 1 && s.pkg_child && !cli) { "pkg".to_string() } else { format!("m{m}") }
 }
 
 struct W {
@@ -216,7 +223,7 @@ impl W {
                 if n == "main" {
                     continue;
                 }
-                let path = if *m == 0 { n.clone() } else { format!("m{m}.{n}") };
+                let path = if *m == 0 { n.clone() } else { format!("{}.{n}", mname(s, *m, false)) };
                 let f = pkg.get_function::<fn() -> i32>(&path).map_err(|e| ("get_function".to_string(), format!("{path}: {e}")))?;
                 if f.call() != *v {
                     return Err(("function-shadowed-by-test".into(), format!("{path}() does not return its own value")));
@@ -370,7 +377,7 @@ impl Prop for C19P {
         "C19"
     }
     fn rule(&self) -> String {
-        "scripts with 0-8 test blocks over 1-4 modules, names drawn from a pool shared with functions (collisions on purpose), each test logging a unique tag and ending in accept or reject after 0-2 early accept/reject exits under generated conditions (in if-blocks and while loops); library oracle: run_tests() is Ok iff every block's modelled outcome is accept, every tag is logged exactly once, get_tests() lists every test once, each listed test runs exactly its own body with the modelled result, the order of run_tests equals the order of get_tests and is identical across two compilations, a function calling a test does not compile, functions named like tests keep their behaviour; CLI oracle (about 3% of the cases, real `roto` binary built from /repo): check / test / run / run <fn> / run <missing> exit statuses equal the modelled ones and the entry function's print line appears exactly once. Non-trivial: >= 2 tests in >= 2 modules with mixed outcomes, or a name collision, or a CLI case; distinct by script text".into()
+        "scripts with 0-8 test blocks over 1-4 modules (the first child module is sometimes itself called `pkg`), names drawn from a pool shared with functions (collisions on purpose), each test logging a unique tag and ending in accept or reject after 0-2 early accept/reject exits under generated conditions (in if-blocks and while loops); library oracle: run_tests() is Ok iff every block's modelled outcome is accept, every tag is logged exactly once, get_tests() lists every test once, each listed test runs exactly its own body with the modelled result, the order of run_tests equals the order of get_tests and is identical across two compilations, a function calling a test does not compile, functions named like tests keep their behaviour; CLI oracle (about 3% of the cases, real `roto` binary built from /repo): check / test / run / run <fn> / run <missing> exit statuses equal the modelled ones and the entry function's print line appears exactly once. Non-trivial: >= 2 tests in >= 2 modules with mixed outcomes, or a name collision, or a CLI case; distinct by script text".into()
     }
     fn assumptions(&self) -> Vec<String> {
         vec!["the CLI's doc and print sub-commands are not driven".into(), "test outcomes are decided by constant conditions, so the model is exact".into()]
